@@ -5,6 +5,9 @@ constructs a maintainer writes either way:
          T i = a;  while (c(i)) { body; ++i; }        (i not used after the loop, no `continue` in body)
      becomes the equivalent   for (T i = a; c(i); ++i) { body }
  N2  `return c ? a : b;` becomes `if (c) return a; else return b;`
+ N5  `switch (e) { case A: S1 ... default: Sd }` whose groups all end in return / break / continue / throw (no fall-through
+     into another group's statements; stacked labels `case A: case B:` are one group) and whose `e` has no side effect
+     becomes `if (e == A) S1 else if (e == B) S2 ... else Sd` (trailing `break`s dropped)
  N3  a `for` statement without a condition, `for (T i = a; ; ++i) { body }` (no `continue` in body), becomes
          T i = a;  while (true) { body; ++i; }
      (the endless scan loop of the matcher is written either way)
@@ -129,6 +132,88 @@ def _endless_for(comp):
     return changed
 
 
+def _pure(e):
+    for n in walk(e):
+        k = n.get("k")
+        if k in ("CallExpr", "CXXMemberCallExpr", "CXXOperatorCallExpr", "CompoundAssignOperator", "CXXConstructExpr"):
+            return False
+        if k == "BinaryOperator" and n.get("op") == "=":
+            return False
+        if k == "UnaryOperator" and n.get("op") in ("++", "--"):
+            return False
+    return True
+
+
+def _exits(st):
+    k = st.get("k") if isinstance(st, dict) else None
+    if k in ("ReturnStmt", "BreakStmt", "ContinueStmt", "CXXThrowExpr"):
+        return True
+    if k == "CompoundStmt":
+        c = st.get("c") or []
+        return bool(c) and _exits(c[-1])
+    if k == "IfStmt":
+        return st.get("else") is not None and _exits(st.get("then")) and _exits(st.get("else"))
+    if k == "ExprWithCleanups":
+        return any(_exits(x) for x in st.get("c") or [])
+    return False
+
+
+def _switch_to_if(sw):
+    """SwitchStmt node -> nested IfStmt, or None when the shape is not the simple one."""
+    c = sw.get("c") or []
+    if len(c) != 2 or not isinstance(c[1], dict) or c[1].get("k") != "CompoundStmt" or not _pure(c[0]):
+        return None
+    cond = c[0]
+    groups = []          # (labels or None for default, [statements])
+    for st in c[1].get("c") or []:
+        labels = []
+        is_default = False
+        x = st
+        while isinstance(x, dict) and x.get("k") in ("CaseStmt", "DefaultStmt"):
+            cc = x.get("c") or []
+            if x["k"] == "CaseStmt":
+                if len(cc) != 2:
+                    return None
+                labels.append(cc[0])
+                x = cc[1]
+            else:
+                if len(cc) != 1:
+                    return None
+                is_default = True
+                x = cc[0]
+        if labels or is_default:
+            groups.append([None if is_default else labels, [x]])
+            if is_default and labels:
+                return None
+        else:
+            if not groups:
+                return None
+            groups[-1][1].append(st)
+    if not groups:
+        return None
+    for labels, body in groups:
+        if not _exits(body[-1]):
+            return None          # fall-through into the next group: not the simple shape
+    loc = sw.get("l")
+
+    def eq(lab):
+        return {"k": "BinaryOperator", "op": "==", "l": loc, "c": [cond, lab], "synthetic": True}
+
+    def body_of(stmts):
+        stmts = list(stmts)
+        if stmts and stmts[-1].get("k") == "BreakStmt":
+            stmts = stmts[:-1]
+        return {"k": "CompoundStmt", "l": loc, "c": stmts, "synthetic": True}
+    default = [g for g in groups if g[0] is None]
+    tail = body_of(default[0][1]) if default else None
+    for labels, body in reversed([g for g in groups if g[0] is not None]):
+        test = eq(labels[0])
+        for lab in labels[1:]:
+            test = {"k": "BinaryOperator", "op": "||", "l": loc, "c": [test, eq(lab)], "synthetic": True}
+        tail = {"k": "IfStmt", "l": loc, "cond": test, "then": body_of(body), "else": tail, "synthetic": True}
+    return tail
+
+
 def _split_return(s):
     """ReturnStmt node -> IfStmt with two returns, when the value is a conditional expression."""
     v = s.get("value")
@@ -160,6 +245,13 @@ def normalise(body):
         if k == "LambdaExpr":
             pass
         if k == "CompoundStmt":
+            c0 = node.get("c") or []
+            for i, x in enumerate(c0):
+                if isinstance(x, dict) and x.get("k") == "SwitchStmt":
+                    r = _switch_to_if(x)
+                    if r is not None:
+                        c0[i] = r
+                        n += 1
             if _endless_for(node):
                 n += 1
             if _while_to_for(node):
